@@ -200,6 +200,12 @@ class Check:
                         ob.backend = "cvc5"
                 except Exception as e:
                     ob.detail += f" cvc5: {e}"
+        for ob in self.obs:
+            if ob.status == REFUTED and ob.replay is not None and callable(ob.replay[1]):
+                try:
+                    ob.replay = (ob.replay[0], ob.replay[1](ob.model or {}))
+                except Exception as e:
+                    ob.replay = (ob.replay[0], {"__builder_error__": f"{type(e).__name__}: {e}"})
         if self.tier == "thorough":
             self.cross_check()
 
@@ -208,7 +214,7 @@ class Check:
         t0 = time.time()
         n = 0
         for ob in self.obs:
-            if ob.backend != "z3" or ob.status not in (DISCHARGED, REFUTED):
+            if ob.backend != "z3" or ob.status not in (DISCHARGED, REFUTED) or ob.goal is None:
                 continue
             if time.time() - t0 > limit_s:
                 self.notes.append(f"cvc5 cross-check stopped after {n} obligations (time budget)")
@@ -227,6 +233,70 @@ class Check:
                     ob.backend = "z3+cvc5"
         self.extra["cvc5_cross_checked"] = n
 
+    # -- parallel generation ----------------------------------------------
+    def export(self):
+        """Plain (picklable) summary of this sink after discharge."""
+        recs = []
+        for ob in self.obs:
+            rp = ob.replay
+            if rp is not None and callable(rp[1]):
+                rp = (rp[0], None) if ob.status != REFUTED else rp
+            recs.append({"name": ob.name, "instance": ob.instance, "status": ob.status, "model": ob.model,
+                         "solver_s": ob.solver_s, "backend": ob.backend, "replay": rp, "detail": ob.detail,
+                         "family": ob.family, "bounded": ob.bounded, "has_pc": bool(ob.pc)})
+        ex = dict(self.extra)
+        for k, v in list(ex.items()):
+            if isinstance(v, set):
+                ex[k] = sorted(v)
+        return {"obs": recs, "functions": self.functions, "undecided": self.undecided, "faults": self.faults,
+                "paths": self.paths, "node_counts": self.node_counts, "inlined": sorted(self.inlined),
+                "assumed_calls": self.assumed_calls, "declared": self.instances_declared,
+                "generated": self.instances_generated, "samples": self.samples, "extra": ex, "notes": self.notes,
+                "audits": self.audits, "audit_mismatch": self.audit_mismatch}
+
+    def merge(self, d):
+        for r in d["obs"]:
+            ob = Ob(r["name"], r["instance"], [True] if r["has_pc"] else [], None, replay=r["replay"], detail=r["detail"],
+                    family=r["family"], bounded=r["bounded"])
+            ob.status, ob.model, ob.solver_s, ob.backend = r["status"], r["model"], r["solver_s"], r["backend"]
+            self.obs.append(ob)
+        self.functions.update(d["functions"])
+        self.undecided.extend(tuple(x) for x in d["undecided"])
+        self.faults.extend(d["faults"])
+        self.paths += d["paths"]
+        for k, v in d["node_counts"].items():
+            self.node_counts[k] = self.node_counts.get(k, 0) + v
+        self.inlined |= set(d["inlined"])
+        for k, v in d["assumed_calls"].items():
+            self.assumed_calls[k] = self.assumed_calls.get(k, 0) + v
+        self.instances_declared += d["declared"]
+        self.instances_generated += d["generated"]
+        self.samples.extend(d["samples"])
+        self.notes.extend(d["notes"])
+        self.audits += d["audits"]
+        self.audit_mismatch.extend(d["audit_mismatch"])
+        for k, v in d["extra"].items():
+            if isinstance(v, list):
+                cur = self.extra.setdefault(k, [])
+                for x in v:
+                    if x not in cur:
+                        cur.append(x)
+            else:
+                self.extra[k] = v
+
+    def run_parallel(self, module, func, tasks, workers=8):
+        """tasks: list of kwargs dicts for module.func(loader, sink, **kwargs); each runs in a forked
+        worker with its own sink, discharges there, and the plain results are merged here."""
+        import multiprocessing as mp
+        if workers <= 1 or len(tasks) <= 1:
+            for t in tasks:
+                self.merge(_worker((self.prop, self.tier, module, func, t)))
+            return
+        ctx = mp.get_context("fork")
+        with ctx.Pool(min(workers, len(tasks))) as pool:
+            for d in pool.imap_unordered(_worker, [(self.prop, self.tier, module, func, t) for t in tasks]):
+                self.merge(d)
+
     # -- findings -----------------------------------------------------------
     def match_finding(self, ob):
         for f in self.findings:
@@ -239,6 +309,15 @@ class Check:
     # -- finish ---------------------------------------------------------------
     def finish(self, level="proof", rule="", checker_cmd=None, explanation=None):
         self.discharge()
+        if os.environ.get("VERIF_DEBUG"):
+            agg = {}
+            for ob in self.obs:
+                if ob.status != DISCHARGED:
+                    agg.setdefault((ob.name, ob.status), []).append(ob)
+            for (n, st), obs in sorted(agg.items()):
+                print(f"DEBUG {st} {n}: {len(obs)}  e.g. [{obs[0].instance}] {obs[0].detail[:200]} model={obs[0].model}")
+            if os.environ.get("VERIF_DEBUG") == "noreplay":
+                return 9
         os.makedirs(os.path.join(VERIF, "evidence"), exist_ok=True)
         os.makedirs(os.path.join(VERIF, "replay"), exist_ok=True)
         violations = []
@@ -254,9 +333,10 @@ class Check:
             # refuted: replay natively
             confirmed, rtext, rargs = None, "", None
             if ob.replay is not None:
-                kind, builder = ob.replay
+                kind, rargs = ob.replay
                 try:
-                    rargs = builder(ob.model or {})
+                    if "__builder_error__" in rargs:
+                        raise RuntimeError(rargs["__builder_error__"])
                     from . import replay as _rp
                     confirmed, rtext = _rp.run(kind, rargs)
                 except Exception as e:  # replay machinery failure is a checker fault
@@ -371,6 +451,21 @@ class Check:
         if undecided:
             return 2
         return 0
+
+
+def _worker(a):
+    prop, tier, module, func, kwargs = a
+    import importlib
+    import traceback
+    from .loader import Loader
+    sink = Check(prop, tier)
+    try:
+        mod = importlib.import_module(module)
+        getattr(mod, func)(Loader(), sink, **kwargs)
+        sink.discharge()
+    except Exception:
+        sink.faults.append(f"worker {func}({kwargs}) crashed: {traceback.format_exc()[-600:]}")
+    return sink.export()
 
 
 def _safe(s):
